@@ -612,6 +612,11 @@ pub fn check_main(def: &'static PropDef, opts: &CheckOpts) -> i32 {
 		}
 	}
 	for (class, (first_idx, first_msg, count)) in &by_class {
+		if class.starts_with("harness/") {
+			// The stub and the real thing disagree, or a spawn failed: not a verdict about xt.
+			harness_faults.push(format!("[{class}] x{count} (first run {first_idx}): {first_msg}"));
+			continue;
+		}
 		let unattr = Some(*first_idx);
 		let Some(idx) = unattr else { continue };
 		unattributed += count;
@@ -637,7 +642,8 @@ pub fn check_main(def: &'static PropDef, opts: &CheckOpts) -> i32 {
 			harness_faults.push(format!("violation class '{class}' of run {idx} did not replay in a fresh process ({:?})", r.violations.iter().map(|v| &v.0).collect::<Vec<_>>()));
 			continue;
 		}
-		let (min_case, steps) = minimise(def, &case, class, Duration::from_secs(if tier == Tier::Quick { 20 } else { 60 }), &exe);
+		let budget = if std::env::var_os("VERIF_NO_MINIMISE").is_some() { 0 } else if tier == Tier::Quick { 20 } else { 60 };
+		let (min_case, steps) = minimise(def, &case, class, Duration::from_secs(budget), &exe);
 		let r2 = eval_isolated_with(def, &min_case, "final", &exe);
 		let msg = r2.violations.iter().find(|(cl, _)| cl == class).map_or(first_msg.clone(), |(_, m)| m.clone());
 		let path = write_replay(def, class_full, &msg, seed, Some(idx), &min_case, steps, Some(&case));
@@ -710,6 +716,17 @@ pub fn check_main(def: &'static PropDef, opts: &CheckOpts) -> i32 {
 	);
 	if !probes_zero.is_empty() {
 		println!("note: probes at zero: {probes_zero:?}");
+	}
+	// A stub/real disagreement is a harness fault only when nothing else is wrong: if the
+	// property is violated, outcomes legitimately depend on the schedule and the two may differ.
+	if !viol_lines.is_empty() {
+		harness_faults.retain(|h| {
+			let fidelity = h.starts_with("[harness/fidelity-");
+			if fidelity {
+				println!("note (not a harness fault because violations were found): {h}");
+			}
+			!fidelity
+		});
 	}
 	if !harness_faults.is_empty() {
 		for h in &harness_faults {
